@@ -284,7 +284,6 @@ func runApp(c *Ctx, sp aspec) *codecResult {
 		d := in.D
 		dom := absint.True
 		var val absint.Value
-		var enc []absint.Value
 		err := in.Try(func() {
 			val = symDeep(in, "", T, v, sp, &dom)
 			for _, eq := range v.Equal {
@@ -306,10 +305,7 @@ func runApp(c *Ctx, sp aspec) *codecResult {
 					c.V = d.Bool(absint.False)
 				}
 			}
-			in.SetLive(dom)
-			enc = in.CallMethod(&absint.Cell{V: absint.Copy(val)}, T, "MarshalBinary")
 		})
-		tag := v.Name
 		collect := func() {
 			for fn := range in.Called {
 				res.Funcs = append(res.Funcs, fn)
@@ -317,147 +313,183 @@ func runApp(c *Ctx, sp aspec) *codecResult {
 		}
 		if err != nil {
 			collect()
-			if pe, ok := err.(absint.Panic); ok {
-				res.add("app.accept", "encoder-total/"+tag, false, "encoding a well-formed value returns bytes or an error", pe.Why+witnessOr(in, pe.Cond, ""), pos)
+			res.undecided("undecided", "enc/"+v.Name, err.Error(), pos)
+			continue
+		}
+		// encode; when the encoder's output shape depends on a symbolic condition (a data-dependent early exit, a
+		// length that depends on a flag) the input space is partitioned on that condition and every part is analysed
+		type encPart struct {
+			dom absint.Node
+			tag string
+			enc []absint.Value
+			err error
+		}
+		var parts []encPart
+		forParts(in, dom, 10, func(dp absint.Node, pt string) error {
+			var e2 []absint.Value
+			er := in.Try(func() {
+				in.SetLive(dp)
+				e2 = in.CallMethod(&absint.Cell{V: absint.Copy(val)}, T, "MarshalBinary")
+			})
+			if _, isSplit := er.(absint.SplitRequest); isSplit {
+				return er
+			}
+			parts = append(parts, encPart{dp, pt, e2, er})
+			return nil
+		}, func(pt string, er error) {
+			parts = append(parts, encPart{absint.False, pt, nil, er})
+		})
+		for _, part := range parts {
+			dom, enc, err := part.dom, part.enc, part.err
+			_ = enc
+			tag := v.Name
+			if part.tag != "" {
+				tag += "/part" + part.tag
+			}
+			if err != nil {
+				collect()
+				if pe, ok := err.(absint.Panic); ok {
+					res.add("app.accept", "encoder-total/"+tag, false, "encoding a well-formed value returns bytes or an error", pe.Why+witnessOr(in, pe.Cond, ""), pos)
+					continue
+				}
+				res.undecided("undecided", "enc/"+tag, err.Error(), pos)
 				continue
 			}
-			res.undecided("undecided", "enc/"+tag, err.Error(), pos)
-			continue
-		}
-		ev, ok1 := enc[1].(*absint.ErrVal)
-		out, ok2 := enc[0].(*absint.Slice)
-		if !ok1 {
-			res.undecided("undecided", "enc/"+tag, fmt.Sprintf("unexpected error shape %T", enc[1]), pos)
-			continue
-		}
-		w := d.M.And(dom, ev.NonNil)
-		res.add("app.accept", "in-range-accepted/"+tag, w == absint.False, "every value within the specified bit widths is accepted", witnessOr(in, w, "always accepted"), pos)
-		A := d.M.And(dom, d.M.Not(ev.NonNil))
-		if A == absint.False || !ok2 {
-			continue
-		}
-		in.SetLive(A)
-		// Size()
-		if hasMethod(T, "Size") {
-			var sz []absint.Value
-			if e := in.Try(func() { sz = in.CallMethod(&absint.Cell{V: absint.Copy(val)}, T, "Size") }); e != nil {
-				res.undecided("undecided", "size/"+tag, e.Error(), pos)
-			} else if k, ok := d.ConstVal(sz[0].(*absint.Bits)); ok {
-				res.add("app.size", "size/"+tag, int(k) == out.Len() && out.Len() == v.Size, fmt.Sprintf("Size() = encoded length = %d", v.Size), fmt.Sprintf("Size()=%d, encoded %d bytes", k, out.Len()), pos)
-			} else {
-				res.add("app.size", "size/"+tag, false, "Size() is determined by the variant's gate fields", "Size() depends on other symbolic fields: "+in.Show(sz[0]), pos)
-			}
-		} else {
-			res.add("app.size", "size/"+tag, out.Len() == v.Size, fmt.Sprintf("encoded length = %d", v.Size), fmt.Sprintf("encoded %d bytes", out.Len()), pos)
-		}
-		// inverse
-		decode := func(data absint.Value) (*absint.Cell, *absint.ErrVal, error) {
-			recv := &absint.Cell{V: in.Zero(T)}
-			var dec []absint.Value
-			e := in.Try(func() { dec = in.CallMethod(recv, T, "UnmarshalBinary", unmarshalArgs(in, T, data, sp.Dir == "up")...) })
-			if e != nil {
-				return nil, nil, e
-			}
-			de, _ := dec[0].(*absint.ErrVal)
-			return recv, de, nil
-		}
-		recv, de, e := decode(out)
-		collect()
-		if e != nil {
-			if pe, ok := e.(absint.Panic); ok {
-				res.add("app.inv", "decoder-total/"+tag, false, "decoding the encoder's output returns a value or an error", pe.Why, pos)
+			ev, ok1 := enc[1].(*absint.ErrVal)
+			out, ok2 := enc[0].(*absint.Slice)
+			if !ok1 {
+				res.undecided("undecided", "enc/"+tag, fmt.Sprintf("unexpected error shape %T", enc[1]), pos)
 				continue
 			}
-			res.undecided("undecided", "dec-of-enc/"+tag, e.Error(), pos)
-			continue
-		}
-		cond := A
-		if de != nil {
-			w := d.M.And(A, de.NonNil)
-			res.add("app.inv", "decoder-accepts/"+tag, w == absint.False, "decoder accepts the encoder's output", witnessOr(in, w, "always accepted"), pos)
-			cond = d.M.And(A, d.M.Not(de.NonNil))
-		}
-		if cond != absint.False {
-			in.SetLive(cond)
-			func() {
-				defer func() {
-					if r := recover(); r != nil {
-						if u, ok := r.(absint.Unsupported); ok {
-							res.undecided("undecided", "inv/"+tag, u.Error(), pos)
-							return
-						}
-						if u, ok := r.(absint.BudgetExceeded); ok {
-							res.undecided("undecided", "inv/"+tag, u.Error(), pos)
-							return
-						}
-						panic(r)
-					}
-				}()
-				deepCompare(in, "", recv.V, val, cond, func(p string, ok bool, why string) {
-					for _, ig := range v.Ignore {
-						if strings.TrimPrefix(p, ".") == ig {
-							return
-						}
-					}
-					res.add("app.inv", "inv/"+tag+p, ok, "decode(encode(v))"+p+" = v"+p+" for every in-range v", why, pos)
-				})
-			}()
-		}
-		// stream convention: a following byte must not disturb decoding; a missing byte must be rejected
-		if !v.NoStream {
-			// trailers of every length 1..streamTrailMax, all bytes symbolic; one obligation per variant,
-			// reporting the shortest trailer that disturbs decoding
-			streamOK, streamWhy, streamUndec := true, fmt.Sprintf("same value with every trailer of 1..%d arbitrary bytes", streamTrailMax), ""
-			var trail []absint.Value
-			for j := 0; j < streamTrailMax; j++ {
-				trail = append(trail, in.D.Sym(fmt.Sprintf("next-command-byte%d/%s", j, tag), 8, false, false))
+			w := d.M.And(dom, ev.NonNil)
+			res.add("app.accept", "in-range-accepted/"+tag, w == absint.False, "every value within the specified bit widths is accepted", witnessOr(in, w, "always accepted"), pos)
+			A := d.M.And(dom, d.M.Not(ev.NonNil))
+			if A == absint.False || !ok2 {
+				continue
 			}
-			for tl := 1; tl <= streamTrailMax && streamOK && streamUndec == ""; tl++ {
-				bk := &absint.Backing{}
-				for i := 0; i < out.Len(); i++ {
-					bk.E = append(bk.E, &absint.Cell{V: out.At(i).V})
-				}
-				for j := 0; j < tl; j++ {
-					bk.E = append(bk.E, &absint.Cell{V: trail[j]})
-				}
-				longer := &absint.Slice{Back: bk, Hi: len(bk.E), Cap: len(bk.E), Elem: out.Elem}
-				in.SetLive(A)
-				recv2, de2, e2 := decode(longer)
-				switch {
-				case e2 != nil:
-					streamUndec = fmt.Sprintf("trailer of %d bytes: %s", tl, e2.Error())
-				case de2 != nil && d.M.And(A, de2.NonNil) != absint.False:
-					streamOK, streamWhy = false, fmt.Sprintf("rejected with a trailer of %d bytes: %s", tl, witnessOr(in, d.M.And(A, de2.NonNil), ""))
-				default:
-					func() {
-						defer func() {
-							if r := recover(); r != nil {
-								streamOK, streamWhy = false, fmt.Sprint(r)
-							}
-						}()
-						deepCompare(in, "", recv2.V, val, A, func(p string, ok bool, w string) {
-							if !ok && streamOK {
-								streamOK, streamWhy = false, fmt.Sprintf("with a trailer of %d bytes %s: %s", tl, p, w)
-							}
-						})
-					}()
-				}
-			}
-			if streamUndec != "" {
-				res.undecided("undecided", "stream/"+tag, streamUndec, pos)
-			} else {
-				res.add("app.stream", "stream/"+tag, streamOK, "payload followed by further commands decodes to the same value (length test is a lower bound, nothing beyond Size() is read)", streamWhy, pos)
-			}
-		}
-		if out.Len() > 0 && !v.NoStream {
-			shorter := &absint.Slice{Back: out.Back, Lo: out.Lo, Hi: out.Hi - 1, Cap: out.Len() - 1, Elem: out.Elem}
 			in.SetLive(A)
-			_, de3, e3 := decode(shorter)
-			if e3 != nil {
-				res.add("app.short", "short/"+tag, false, "a truncated payload is rejected with an error", "decoder runs off the buffer: "+e3.Error(), pos)
+			// Size()
+			if hasMethod(T, "Size") {
+				var sz []absint.Value
+				if e := in.Try(func() { sz = in.CallMethod(&absint.Cell{V: absint.Copy(val)}, T, "Size") }); e != nil {
+					res.undecided("undecided", "size/"+tag, e.Error(), pos)
+				} else if k, ok := d.ConstVal(sz[0].(*absint.Bits)); ok {
+					res.add("app.size", "size/"+tag, int(k) == out.Len() && out.Len() == v.Size, fmt.Sprintf("Size() = encoded length = %d", v.Size), fmt.Sprintf("Size()=%d, encoded %d bytes", k, out.Len()), pos)
+				} else {
+					res.add("app.size", "size/"+tag, false, "Size() is determined by the variant's gate fields", "Size() depends on other symbolic fields: "+in.Show(sz[0]), pos)
+				}
 			} else {
-				rej := de3 != nil && d.M.Implies(A, de3.NonNil)
-				res.add("app.short", "short/"+tag, rej, "a truncated payload is rejected with an error", fmt.Sprintf("rejected=%v", rej), pos)
+				res.add("app.size", "size/"+tag, out.Len() == v.Size, fmt.Sprintf("encoded length = %d", v.Size), fmt.Sprintf("encoded %d bytes", out.Len()), pos)
+			}
+			// inverse
+			decode := func(data absint.Value) (*absint.Cell, *absint.ErrVal, error) {
+				recv := &absint.Cell{V: in.Zero(T)}
+				var dec []absint.Value
+				e := in.Try(func() { dec = in.CallMethod(recv, T, "UnmarshalBinary", unmarshalArgs(in, T, data, sp.Dir == "up")...) })
+				if e != nil {
+					return nil, nil, e
+				}
+				de, _ := dec[0].(*absint.ErrVal)
+				return recv, de, nil
+			}
+			recv, de, e := decode(out)
+			collect()
+			if e != nil {
+				if pe, ok := e.(absint.Panic); ok {
+					res.add("app.inv", "decoder-total/"+tag, false, "decoding the encoder's output returns a value or an error", pe.Why, pos)
+					continue
+				}
+				res.undecided("undecided", "dec-of-enc/"+tag, e.Error(), pos)
+				continue
+			}
+			cond := A
+			if de != nil {
+				w := d.M.And(A, de.NonNil)
+				res.add("app.inv", "decoder-accepts/"+tag, w == absint.False, "decoder accepts the encoder's output", witnessOr(in, w, "always accepted"), pos)
+				cond = d.M.And(A, d.M.Not(de.NonNil))
+			}
+			if cond != absint.False {
+				in.SetLive(cond)
+				func() {
+					defer func() {
+						if r := recover(); r != nil {
+							if u, ok := r.(absint.Unsupported); ok {
+								res.undecided("undecided", "inv/"+tag, u.Error(), pos)
+								return
+							}
+							if u, ok := r.(absint.BudgetExceeded); ok {
+								res.undecided("undecided", "inv/"+tag, u.Error(), pos)
+								return
+							}
+							panic(r)
+						}
+					}()
+					deepCompare(in, "", recv.V, val, cond, func(p string, ok bool, why string) {
+						for _, ig := range v.Ignore {
+							if strings.TrimPrefix(p, ".") == ig {
+								return
+							}
+						}
+						res.add("app.inv", "inv/"+tag+p, ok, "decode(encode(v))"+p+" = v"+p+" for every in-range v", why, pos)
+					})
+				}()
+			}
+			// stream convention: a following byte must not disturb decoding; a missing byte must be rejected
+			if !v.NoStream {
+				// trailers of every length 1..streamTrailMax, all bytes symbolic; one obligation per variant,
+				// reporting the shortest trailer that disturbs decoding
+				streamOK, streamWhy, streamUndec := true, fmt.Sprintf("same value with every trailer of 1..%d arbitrary bytes", streamTrailMax), ""
+				var trail []absint.Value
+				for j := 0; j < streamTrailMax; j++ {
+					trail = append(trail, in.D.Sym(fmt.Sprintf("next-command-byte%d/%s", j, tag), 8, false, false))
+				}
+				for tl := 1; tl <= streamTrailMax && streamOK && streamUndec == ""; tl++ {
+					bk := &absint.Backing{}
+					for i := 0; i < out.Len(); i++ {
+						bk.E = append(bk.E, &absint.Cell{V: out.At(i).V})
+					}
+					for j := 0; j < tl; j++ {
+						bk.E = append(bk.E, &absint.Cell{V: trail[j]})
+					}
+					longer := &absint.Slice{Back: bk, Hi: len(bk.E), Cap: len(bk.E), Elem: out.Elem}
+					in.SetLive(A)
+					recv2, de2, e2 := decode(longer)
+					switch {
+					case e2 != nil:
+						streamUndec = fmt.Sprintf("trailer of %d bytes: %s", tl, e2.Error())
+					case de2 != nil && d.M.And(A, de2.NonNil) != absint.False:
+						streamOK, streamWhy = false, fmt.Sprintf("rejected with a trailer of %d bytes: %s", tl, witnessOr(in, d.M.And(A, de2.NonNil), ""))
+					default:
+						func() {
+							defer func() {
+								if r := recover(); r != nil {
+									streamOK, streamWhy = false, fmt.Sprint(r)
+								}
+							}()
+							deepCompare(in, "", recv2.V, val, A, func(p string, ok bool, w string) {
+								if !ok && streamOK {
+									streamOK, streamWhy = false, fmt.Sprintf("with a trailer of %d bytes %s: %s", tl, p, w)
+								}
+							})
+						}()
+					}
+				}
+				if streamUndec != "" {
+					res.undecided("undecided", "stream/"+tag, streamUndec, pos)
+				} else {
+					res.add("app.stream", "stream/"+tag, streamOK, "payload followed by further commands decodes to the same value (length test is a lower bound, nothing beyond Size() is read)", streamWhy, pos)
+				}
+			}
+			if out.Len() > 0 && !v.NoStream {
+				shorter := &absint.Slice{Back: out.Back, Lo: out.Lo, Hi: out.Hi - 1, Cap: out.Len() - 1, Elem: out.Elem}
+				in.SetLive(A)
+				_, de3, e3 := decode(shorter)
+				if e3 != nil {
+					res.add("app.short", "short/"+tag, false, "a truncated payload is rejected with an error", "decoder runs off the buffer: "+e3.Error(), pos)
+				} else {
+					rej := de3 != nil && d.M.Implies(A, de3.NonNil)
+					res.add("app.short", "short/"+tag, rej, "a truncated payload is rejected with an error", fmt.Sprintf("rejected=%v", rej), pos)
+				}
 			}
 		}
 		res.Nodes += d.M.Size()
